@@ -95,6 +95,8 @@ class Harness:
         from .spies import tiny
         self.model = Model(self.names, cfg.get('model', 'scalar'), cfg.get('ignored'), self.log, self.inj,
                            conv if not cfg.get('oscale') else tiny)
+        if cfg.get('buffer'):
+            self.model.buffer = True
         self.loss = Loss(cfg.get('model', 'scalar'), cfg.get('loss', 'sq'), self.log, self.inj, conv)
         self.storage = build_storage(cfg['storage'], self.log, self.inj, spy_storage)
         imp_kind = cfg['imputer']
